@@ -40,7 +40,7 @@ def typeK (cr : Creation) (p : Props) (am : Option Nat) (flags : Nat) : Nat × N
     else if cr.width ≤ 0 || cr.height ≤ 0 then bitsK1 cr p am flags PIXMAN_unknown
     else bitsK1 cr p am (flags ||| FAST_PATH_BITS_IMAGE) cr.format
   | k =>
-    if !(k == .radial && (cr.radialA ≥ 0 || !hasBits flags FAST_PATH_AFFINE_TRANSFORM)) then
+    if !(k == .radial) then
       if p.repeat_ != PIXMAN_REPEAT_NONE then
         if cr.stops.any (fun s => s.c.a != 0xffff) then amK cr p am (clearBits (flags ||| FAST_PATH_IS_OPAQUE) FAST_PATH_IS_OPAQUE) PIXMAN_unknown
         else amK cr p am (flags ||| FAST_PATH_IS_OPAQUE) PIXMAN_unknown
@@ -153,16 +153,16 @@ def killed (p : Props) (am : Option Nat) : Bool :=
 def kill (p : Props) (am : Option Nat) (i : Nat) : Bool := killed p am && (i == 13 || i == 7)
 /-- the format has no alpha field and is neither gray nor indexed -/
 def alphaLess (fmt : Nat) : Bool := fmtA fmt == 0 && fmtType fmt != PIXMAN_TYPE_GRAY && fmtType fmt != PIXMAN_TYPE_COLOR
-/-- gradients: not (radial with a ≥ 0 or without the AFFINE_TRANSFORM bit `aff`, a7be4c7), repeating, every stop alpha 0xffff -/
-def gradOpaque (cr : Creation) (p : Props) (aff : Bool) : Bool :=
-  !(cr.kind == .radial && (decide (cr.radialA ≥ 0) || !aff)) && p.repeat_ != PIXMAN_REPEAT_NONE && !(cr.stops.any (fun s => s.c.a != 0xffff))
+/-- gradients: linear or conical (6d3452b: radial gradients are never reported opaque), repeating, every stop alpha 0xffff -/
+def gradOpaque (cr : Creation) (p : Props) : Bool :=
+  !(cr.kind == .radial) && p.repeat_ != PIXMAN_REPEAT_NONE && !(cr.stops.any (fun s => s.c.a != 0xffff))
 /-- bits set by the type-specific section -/
-def typeEff (cr : Creation) (p : Props) (aff : Bool) (i : Nat) : Bool :=
+def typeEff (cr : Creation) (p : Props) (i : Nat) : Bool :=
   match cr.kind with
   | .solid => i == 13 && cr.solidAlpha == 0xffff
   | .bits => alphaLess cr.format && (i == 7 || (i == 13 && p.repeat_ != PIXMAN_REPEAT_NONE))
-  | _ => i == 13 && gradOpaque cr p aff
-def closed (cr : Creation) (p : Props) (am : Option Nat) (aff : Bool) (i : Nat) (b : Bool) : Bool := (b || typeEff cr p aff i) && !kill p am i
+  | _ => i == 13 && gradOpaque cr p
+def closed (cr : Creation) (p : Props) (am : Option Nat) (i : Nat) (b : Bool) : Bool := (b || typeEff cr p i) && !kill p am i
 
 /-! bit table of the flag constants (regenerated constants: each fact is re-decided on every build) -/
 theorem cb_ID_TRANSFORM_7 : FAST_PATH_ID_TRANSFORM.testBit 7 = false := by decide
@@ -424,9 +424,8 @@ theorem hasBits_affine (f : Nat) : hasBits f FAST_PATH_AFFINE_TRANSFORM = f.test
 
 theorem typeK_tb (cr : Creation) (p : Props) (am : Option Nat) (f i : Nat) (hi : Tracked i)
     (hf : f.testBit 13 = false) :
-    (typeK cr p am f).1.testBit i = closed cr p am (f.testBit 17) i (f.testBit i) := by
+    (typeK cr p am f).1.testBit i = closed cr p am i (f.testBit i) := by
   unfold typeK closed typeEff gradOpaque
-  simp only [hasBits_affine]
   cases hk : cr.kind <;> simp only [] <;>
   rcases hi with rfl | rfl | rfl | rfl | rfl | rfl | rfl <;> (repeat' split) <;>
   (first
@@ -436,31 +435,31 @@ theorem typeK_tb (cr : Creation) (p : Props) (am : Option Nat) (f i : Nat) (hi :
   (try (intro hall; rename_i hex; obtain ⟨x, hx, hne⟩ := hex; exact absurd (hall x hx) hne))
 
 theorem caK_tb (cr : Creation) (p : Props) (am : Option Nat) (f i : Nat) (hi : Tracked i) (hf : f.testBit 13 = false) :
-    (caK cr p am f).1.testBit i = closed cr p am (f.testBit 17) i (f.testBit i) := by
+    (caK cr p am f).1.testBit i = closed cr p am i (f.testBit i) := by
   unfold caK
   split <;> rw [typeK_tb _ _ _ _ _ hi (by bits_simp; exact hf)] <;>
   rcases hi with rfl | rfl | rfl | rfl | rfl | rfl | rfl <;> bits_simp
 
 theorem repeatK_tb (cr : Creation) (p : Props) (am : Option Nat) (f i : Nat) (hi : Tracked i) (hf : f.testBit 13 = false) :
-    (repeatK cr p am f).1.testBit i = closed cr p am (f.testBit 17) i (f.testBit i) := by
+    (repeatK cr p am f).1.testBit i = closed cr p am i (f.testBit i) := by
   unfold repeatK
   (repeat' split) <;> rw [caK_tb _ _ _ _ _ hi (by bits_simp; exact hf)] <;>
   rcases hi with rfl | rfl | rfl | rfl | rfl | rfl | rfl <;> bits_simp
 
 theorem filterK_tb (cr : Creation) (p : Props) (am : Option Nat) (f i : Nat) (hi : Tracked i) (h11 : i ≠ 11) (hf : f.testBit 13 = false) :
-    (filterK cr p am f).1.testBit i = closed cr p am (f.testBit 17) i (f.testBit i) := by
+    (filterK cr p am f).1.testBit i = closed cr p am i (f.testBit i) := by
   unfold filterK
   (repeat' split) <;> rw [repeatK_tb _ _ _ _ _ hi (by first | exact hf | (bits_simp; exact hf))] <;>
   rcases hi with rfl | rfl | rfl | rfl | rfl | rfl | rfl <;> first | exact absurd rfl h11 | bits_simp
 
 theorem tK3_tb (cr : Creation) (p : Props) (am : Option Nat) (t : Transform) (f i : Nat) (hi : Tracked i) (h11 : i ≠ 11) (hf : f.testBit 13 = false) :
-    (tK3 cr p am t f).1.testBit i = closed cr p am (f.testBit 17) i (f.testBit i) := by
+    (tK3 cr p am t f).1.testBit i = closed cr p am i (f.testBit i) := by
   unfold tK3
   split <;> rw [filterK_tb _ _ _ _ _ hi h11 (by first | exact hf | (bits_simp; exact hf))] <;>
   rcases hi with rfl | rfl | rfl | rfl | rfl | rfl | rfl <;> first | exact absurd rfl h11 | bits_simp
 
 theorem tK2_tb (cr : Creation) (p : Props) (am : Option Nat) (t : Transform) (f i : Nat) (hi : Tracked i) (h11 : i ≠ 11) (hf : f.testBit 13 = false) :
-    (tK2 cr p am t f).1.testBit i = closed cr p am (f.testBit 17) i (f.testBit i) := by
+    (tK2 cr p am t f).1.testBit i = closed cr p am i (f.testBit i) := by
   unfold tK2
   split <;> rw [tK3_tb _ _ _ _ _ _ hi h11 (by first | exact hf | (bits_simp; exact hf))] <;>
   rcases hi with rfl | rfl | rfl | rfl | rfl | rfl | rfl <;> first | exact absurd rfl h11 | bits_simp
@@ -473,7 +472,7 @@ def affineFlag (p : Props) : Bool :=
 
 /-- closed form of the tracked bits of `compute_image_info` -/
 theorem flags_tb (cr : Creation) (p : Props) (am : Option Nat) (i : Nat) (hi : Tracked i) (h11 : i ≠ 11) :
-    (computeImageInfo cr p am).1.testBit i = closed cr p am (affineFlag p) i ((i == 17 && affineFlag p) || (i == 0 && p.transform.isNone)) := by
+    (computeImageInfo cr p am).1.testBit i = closed cr p am i ((i == 17 && affineFlag p) || (i == 0 && p.transform.isNone)) := by
   rw [computeImageInfo_eq]
   unfold transformK affineFlag
   cases ht : p.transform with
